@@ -213,3 +213,78 @@ def rule_text_verbatim(ctx, rid, prefix="lef21::read::"):
                 ctx.ok(rid, key, "only compared / parsed")
     ctx.count("text_transform_sites", n_sites)
     ctx.floor(rid, "token_text_reads", n_txt, 2)
+
+
+def template_specs(bs):
+    """placeholders of a fmt::Arguments byte-code template: [(arg index, has_flags, has_width, has_precision)]"""
+    out, i, n, nxt = [], 0, len(bs), 0
+    while i < n:
+        b = bs[i]
+        if b == 0:
+            break
+        if b < 0x80:
+            i += 1 + b
+        elif b == 0x80:
+            i += 3 + (bs[i + 1] | (bs[i + 2] << 8))
+        elif b >= 0xC0:
+            i += 1
+            fl, wd, pr = bool(b & 1), bool(b & 2), bool(b & 4)
+            i += 4 if fl else 0
+            i += 2 if wd else 0
+            i += 2 if pr else 0
+            idx = None
+            if b & 8:
+                idx = bs[i] | (bs[i + 1] << 8)
+                i += 2
+            if idx is None:
+                idx = nxt
+            nxt = idx + 1
+            out.append((idx, fl, wd, pr))
+        else:
+            break
+    return out
+
+
+def rule_plain_number_format(ctx, rid):
+    """values are printed with `{}`: a precision (`{:.6}`) truncates or pads a Decimal, flags (`{:+}`, `{:#}`, `{:e}`)
+    change its spelling - the text no longer reads back to the value that was written"""
+    from analysis.mir import Body, callee_name, op_const
+    F = ctx.F
+    ctx.rule(rid, "the LEF writer and the Display impls it relies on print every value with a plain `{}`: no precision and no formatting flags (a precision cuts or pads a decimal: 0.1234567 is written as 0.123456)")
+    n = 0
+    for f in F.fns.values():
+        if not f.id.startswith("lef21::") or not f.body or f.derived:
+            continue
+        if not (f.id.startswith("lef21::write::") or (f.trait_item or "").endswith("fmt::Display::fmt")):
+            continue
+        b = Body(f)
+        for bi, t in b.calls():
+            nm = callee_name(t) or ""
+            if not re.search(r"fmt::Arguments::<.*>::new$|fmt::Arguments::new$", nm) or not t["args"]:
+                continue
+            o = t["args"][0]
+            c = None
+            for _ in range(5):
+                c = op_const(b.resolve_copy(o))
+                if c is not None:
+                    break
+                rv = b.def_rvalue(o)
+                if rv is None:
+                    break
+                if rv["k"] in ("use", "cast"):
+                    o = rv["o"]
+                elif rv["k"] in ("ref", "rawptr"):
+                    o = {"cp": {"l": rv["p"]["l"], "p": []}}
+                else:
+                    break
+            if not c or "bytes" not in c:
+                continue
+            n += 1
+            bad = [(idx, fl, wd, pr) for idx, fl, wd, pr in template_specs(bytes(c["bytes"])) if fl or pr]
+            key = "%s/format-spec" % f.short
+            if bad:
+                ctx.violation(rid, key, "%s prints a value with %s: the written text does not carry the exact value (fine coordinates are truncated, short ones padded), so the library read back differs" % (
+                    f.short, " and ".join(sorted({"a precision" if pr else "formatting flags" for _, fl, wd, pr in bad}))), b.site(bi), key)
+            else:
+                ctx.ok(rid, "%s@%d" % (f.short, bi), "plain placeholders")
+    ctx.floor(rid, "format_templates", n, 20)
